@@ -58,7 +58,8 @@ type Unit struct {
 	start   time.Time
 	outDir  string
 	journal bool
-	lastFail []byte
+	failAs      string // unit name written into fail files (defaults to name)
+	statsSuffix string
 }
 
 func OutDir() string { return os.Getenv("VERIF_OUT") }
@@ -141,7 +142,11 @@ func (u *Unit) writeFail(js []byte, msg string, shrunk bool) {
 	if u.outDir == "" {
 		return
 	}
-	doc := map[string]any{"check": u.name, "case": json.RawMessage(js), "failure": msg, "shrunk": shrunk}
+	as := u.name
+	if u.failAs != "" {
+		as = u.failAs
+	}
+	doc := map[string]any{"check": as, "case": json.RawMessage(js), "failure": msg, "shrunk": shrunk}
 	b, _ := json.MarshalIndent(doc, "", " ")
 	os.WriteFile(filepath.Join(u.outDir, u.name+".fail.json"), b, 0o644)
 }
@@ -161,7 +166,7 @@ func (u *Unit) Flush() {
 	sort.Slice(u.st.Hashes, func(i, j int) bool { return u.st.Hashes[i] < u.st.Hashes[j] })
 	u.st.WallS = time.Since(u.start).Seconds()
 	b, _ := json.Marshal(u.st)
-	os.WriteFile(filepath.Join(u.outDir, u.name+".stats.json"), b, 0o644)
+	os.WriteFile(filepath.Join(u.outDir, u.name+".stats"+u.statsSuffix+".json"), b, 0o644)
 }
 
 // Guard runs the property body, turning a panic in the calling goroutine into a failure.
@@ -265,22 +270,33 @@ func Replay[C any](t *testing.T, name string, check func(C) Result) {
 	fmt.Printf("REPLAY-PASS %s\n", name)
 }
 
-// FuzzCase is used inside native fuzz targets: same accounting, and the
-// failing case is written so the driver can turn the crasher into a replay.
+// Fuzzer is used inside native fuzz targets: same accounting (one stats file
+// per worker process), and the failing case is written under the name of the
+// rapid unit whose TestReplay can re-run it.
 type Fuzzer[C any] struct {
-	u     *Unit
-	check func(C) Result
+	u         *Unit
+	check     func(C) Result
+	lastFlush time.Time
 }
 
-func NewFuzzer[C any](name string, check func(C) Result) *Fuzzer[C] {
-	return &Fuzzer[C]{u: NewUnit(name, false), check: check}
+func NewFuzzer[C any](name, replayUnit string, check func(C) Result) *Fuzzer[C] {
+	u := NewUnit(name, false)
+	u.failAs = replayUnit
+	u.statsSuffix = fmt.Sprintf(".%d", os.Getpid())
+	return &Fuzzer[C]{u: u, check: check, lastFlush: time.Now()}
 }
 
 func (f *Fuzzer[C]) Do(t *testing.T, c C) {
 	js, _ := json.Marshal(c)
 	r := Guard(f.check, c)
+	f.u.Record(js, r)
+	if time.Since(f.lastFlush) > 2*time.Second {
+		f.u.Flush()
+		f.lastFlush = time.Now()
+	}
 	if r.Err != nil && r.Excluded == "" {
 		f.u.writeFail(js, r.Err.Error(), false)
+		f.u.Flush()
 		t.Fatalf("%v", r.Err)
 	}
 }
